@@ -217,6 +217,8 @@ class Array:
                     if product(d['shape']) == 0:  # empty file/array
                         self._memmap = np.zeros(d['shape'], dtype=dtypedescr,
                                                 order=d['arrayorder'])
+                        # a memmap would be read-only in mode 'r'
+                        self._memmap.flags.writeable = (memmapmode == 'r+')
                     else:
                         self._memmap = np.memmap(filename=fd,
                                                  mode=memmapmode,
